@@ -59,6 +59,19 @@ add('C02', 'exploration', 'runtime monitoring on a virtual-time event loop: loca
     'Schedules are those reachable by varying arrival/completion instants under asyncio FIFO discipline; virtual clock.',
     'DESIGN.md#C02')
 
+add('C03', 'exploration', 'runtime monitoring on a virtual-time loop + real threads: event-order oracle over emit/consumer history and online bound counters',
+    'Four families: direct pipelines with one awaiting producer (silence between emit completion and the next emit), '
+    'per-element pipelines with 1-3 producers (consumer END before emit completion, attributed by metadata identity), '
+    'bounds of buffer/map_async/zip evaluated after every event for n in {1,2,3,5}, and a threaded family (background '
+    'loop, 1-4 caller threads, verdict on event order). Idle/quiescent loop with a pending emit is a definite deadlock.',
+    'Bounds per the mechanism (buffer n+1, map_async n+1, zip n with one awaiting producer per input); liveness restated '
+    'as bounded progress in virtual time.', 'DESIGN.md#C03')
+add('C04', 'exploration', 'runtime monitoring: instrumented RefCounter trigger instants vs every later event on derived data',
+    'Async programs over every data-holding node with slow and failing consumers; for each element the first event on '
+    'derived data after its completion signal (late delivery, consumer start/end, computation) names the culprit node; '
+    'failed elements must never signal.',
+    'Derivation tracked by metadata identity plus call-stack inheritance for metadata-less flatten pieces.', 'DESIGN.md#C04')
+
 
 def main():
     props = [json.loads(l) for l in open(os.path.join(HERE, 'properties.jsonl'))]
